@@ -227,4 +227,37 @@ theorem uuid_injective (u v : List UInt8) (hu : u.length = 24) (hv : v.length = 
   simp only [strip_uuidText, decode_hexBytes] at hs
   exact map_toNat_inj _ _ hs
 
+/-! ### request ids of different counter values differ -/
+
+theorem ofNat_inj (a c : Nat) (ha : a < 256) (hc : c < 256) (h : UInt8.ofNat a = UInt8.ofNat c) : a = c := by
+  have := congrArg UInt8.toNat h
+  simp [UInt8.toNat_ofNat'] at this
+  omega
+
+theorem le64_inj (x y : Nat) (hx : x < 18446744073709551616) (hy : y < 18446744073709551616) (h : le64 x = le64 y) : x = y := by
+  simp only [le64, List.cons.injEq, and_true] at h
+  obtain ⟨h0, h1, h2, h3, h4, h5, h6, h7⟩ := h
+  have e0 := ofNat_inj _ _ (by omega) (by omega) h0
+  have e1 := ofNat_inj _ _ (by omega) (by omega) h1
+  have e2 := ofNat_inj _ _ (by omega) (by omega) h2
+  have e3 := ofNat_inj _ _ (by omega) (by omega) h3
+  have e4 := ofNat_inj _ _ (by omega) (by omega) h4
+  have e5 := ofNat_inj _ _ (by omega) (by omega) h5
+  have e6 := ofNat_inj _ _ (by omega) (by omega) h6
+  have e7 := ofNat_inj _ _ (by omega) (by omega) h7
+  omega
+
+theorem newUUID_distinct (seed : List UInt8) (hs : seed.length = 24) (x y : Nat)
+    (hx : x < 18446744073709551616) (hy : y < 18446744073709551616) (hne : x ≠ y) : newUUID seed x ≠ newUUID seed y := by
+  intro h
+  unfold newUUID at h
+  rw [Nat.mod_eq_of_lt hx, Nat.mod_eq_of_lt hy] at h
+  have hl : ∀ z, (le64 z ++ seed.drop 8).length = 24 := by intro z; simp [le64, hs]
+  have := uuid_injective _ _ (hl x) (hl y) h
+  have h8 := congrArg (List.take 8) this
+  simp [List.take_take, le64] at h8
+  apply hne
+  apply le64_inj x y hx hy
+  simp [le64, h8]
+
 end Fabio.Lemmas.C20Serve
